@@ -93,12 +93,16 @@ GhostInit ==
     closed   |-> {},
     bootDone |-> FALSE, booted |-> FALSE,
     lastSpawn|-> [w |-> "", t |-> -1, prio |-> 0, first |-> -1],
-    sigTargets |-> {},
+    sigTargets |-> {},         \* pids signalled while handling the current signal/kill request
+    snapk    |-> <<>>,         \* the kernel table when the current request arrived
+    ctxDie   |-> FALSE,        \* a worker died while the current request was being handled
     par0     |-> <<>>,         \* pid -> the parent it was forked by (0 for the daemon's own children)
     lastStatus |-> <<>>,       \* pid -> result of the last status() read ("" none)
     pruned   |-> {},           \* pids dropped from tracking right after a dead status read, never reaped (D4)
     detached |-> {},           \* pids forgotten after a failing after_spawn hook (D3)
     vetoRaise |-> {},          \* pids whose before_signal hook RAISED with its ignore flag off (D11)
+    reloaded |-> FALSE,        \* a reloadconfig operation has run
+    drifted  |-> FALSE,        \* ... and it put two names that are equal ignoring case into the list (D9R)
     dsigBusy |-> FALSE,        \* a termination signal arrived while an exclusive operation held the slot (D6)         \* pids signalled while handling the current signal/kill request
     stepBad  |-> {} ]
 
@@ -298,8 +302,13 @@ Upd(g, o, ln, o2) ==
                !.vetoRaise = IF ln.k = "hook" /\ ln.x = "before_signal"
                              THEN (IF ln.r = "raise" /\ ~HookCfg(g, ln.w, "before_signal").ig THEN {ln.p} ELSE {})
                              ELSE IF isEv /\ ln.x = "hook_failure:before_signal" THEN @ ELSE {},
+               !.reloaded = @ \/ o2.slot = "arbiter_reload_config",
+               !.drifted = @ \/ (o2.slot = "arbiter_reload_config" /\ Cardinality(SeqToSet(o2.wll)) < Len(o2.wll)
+                                  /\ Cardinality(SeqToSet(o.wll)) = Len(o.wll)),
                !.dsigBusy = @ \/ (ln.k = "dsig" /\ ln.a \in {15, 2, 3} /\ o2.slot # ""),
-               !.sigTargets = IF isReq THEN {} ELSE IF ln.k \in SigKinds THEN @ \cup {ln.p} ELSE @ ]
+               !.sigTargets = IF isReq THEN {} ELSE IF ln.k \in SigKinds /\ ln.r # "nsp" THEN @ \cup {ln.p} ELSE @,
+               !.snapk = IF isReq THEN o2.k ELSE @,
+               !.ctxDie = IF isReq THEN FALSE ELSE @ \/ ln.k \in {"die", "sigdeath", "extkill"} ]
   IN g1
 
 ---------------------------------------------------------------------------
@@ -502,6 +511,30 @@ C18_confine(g, o, ln) ==
                             \* a child listed a moment ago whose parent (a worker of this watcher) has just died
                             \/ \E a \in Anc(g, ln.p, 8) : OwnerOf(g, a) = g.ctx.lname
 
+\* the processes a `signal` request addresses (commands/sendsignal.py), in the state in which it arrived
+SnapSt(g, p) == IF p \in 1..Len(g.snapk) THEN g.snapk[p][2] ELSE "none"
+SnapKids(g, p, rec) ==
+   LET direct(P) == { c \in 1..Len(g.snapk) : g.snapk[c][4] \in P /\ g.snapk[c][2] = "run" }
+       RECURSIVE Clo(_)
+       Clo(P) == IF direct(P) \subseteq P THEN P ELSE Clo(P \cup direct(P))
+   IN IF SnapSt(g, p) # "run" THEN {} ELSE IF rec THEN Clo({p}) \ {p} ELSE direct({p})
+Addressed(g) ==
+   LET sw == g.snap[1]
+       is == { i \in 1..Len(sw) : sw[i].ln = g.ctx.lname }
+   IN IF is = {} THEN {}
+      ELSE LET wr == sw[CHOOSE i \in is : TRUE]
+               tracked == Pids(wr)
+               base == IF g.ctx.pid # -1 THEN {g.ctx.pid} ELSE { p \in tracked : SnapSt(g, p) = "run" }
+           IN IF g.ctx.childpid # -1 THEN { c \in {g.ctx.childpid} : \E p \in base \cap tracked : c \in SnapKids(g, p, FALSE) }
+              ELSE IF g.ctx.children THEN UNION { SnapKids(g, p, FALSE) : p \in base \cap tracked }
+              ELSE (base \cap tracked) \cup (IF g.ctx.recursive THEN UNION { SnapKids(g, p, TRUE) : p \in base \cap tracked } ELSE {})
+C18_exact(g, ln) ==
+   (ln.k = "reqend" /\ g.ctx.on /\ g.ctx.cmd = "signal" /\ ln.x = g.ctx.cid) =>
+      /\ g.sigTargets \subseteq Addressed(g)
+      \* ... and all of them, unless a hook vetoes or somebody died meanwhile
+      /\ (~g.ctxDie /\ CfgW(g, g.ctx.lname).hooks = <<>> /\ g.ctx.signum >= 0) =>
+            { p \in Addressed(g) : SnapSt(g, p) \in {"run", "zombie"} } \subseteq g.sigTargets
+
 \* ---------------- C19
 C19_order(g, o, ln) ==
    (ln.k = "spawn" /\ o.slot \in {"arbiter_start_watchers", "arbiter_restart"} /\ g.lastSpawn.w # ""
@@ -548,7 +581,7 @@ Clauses(g, o, ln, o2, g2) ==
     C14_startgate |-> C14_startgate(g, o, o2), C14_siggate |-> C14_siggate(g, ln),
     C14_events |-> C14_events(g, ln),
     C15_dir |-> C15_dir(g, o2, ln), C15_views |-> C15_views(o, ln), C15_addrm |-> C15_addrm(g, o, ln, o2),
-    C18_confine |-> C18_confine(g, o, ln),
+    C18_confine |-> C18_confine(g, o, ln), C18_exact |-> C18_exact(g, ln),
     C19_order |-> C19_order(g, o, ln), C19_pace |-> C19_pace(g, o, ln), C19_auto |-> C19_auto(g, o, ln, o2) ]
 
 ---------------------------------------------------------------------------
@@ -610,7 +643,11 @@ KF(c, g, o, ln, o2, g2) ==
     [] c = "C01_fresh" ->
          \* a replacement started by this very operation died before it completed
          IF \E p \in 1..NK(o2) : p > g.op.mark /\ OwnerOf(g2, p) # "" /\ KSt(o2, p) # "run" THEN "D14" ELSE ""
-    [] c = "C11_unchanged" -> IF g.ctx.cmd = "set" /\ g.multiSet /\ ~g.ctxHard THEN "D7" ELSE ""
+    [] c = "C11_unchanged" ->      \* D7: only the refusals `set` can pronounce at apply time
+         IF g.ctx.cmd = "set" /\ g.multiSet /\ ~g.ctxHard /\ ln.rc \in {"singleton", "uid", "gid", "hook"} THEN "D7" ELSE ""
+    [] c = "C15_dir" ->      \* D9R: reloadconfig adds [watcher:A] next to `a`: dict entry overwritten, list appended
+         IF g2.drifted THEN "D9R" ELSE ""      \* (everything the directory does after that drift is its consequence)
+    [] c = "C15_views" -> IF g2.drifted THEN "D9R" ELSE ""
     [] c = "C15_addrm" -> IF g.ctx.on /\ g.ctx.cmd = "add" /\ g.ctx.lname = "" /\ ln.k = "reply" THEN "D9" ELSE ""
     [] c = "C06_status" -> IF g.ctx.on /\ g.ctx.cmd = "status" /\ g.ctx.hasname THEN "STATUS" ELSE ""
     [] c = "C08_done" -> IF g2.dsigBusy THEN "D6" ELSE ""
